@@ -1100,8 +1100,12 @@ def option_case(v, what, N, opts):
                 asserts.append(("opt/n_failure_cases_count", sum(fn) == min(sum(fa), n)))
                 asserts.append(("opt/n_failure_cases_first", all(not (fa[i] and not fn[i]) or not any(fn[i + 1:]) for i in range(N))))
     elif what == "raise_warning":
-        plain = H.outcome(lambda: pa.SeriesSchema(PYK[kind], Check(f_vec), nullable=True, name="s").validate(ser))
-        warn = H.outcome(lambda: pa.SeriesSchema(PYK[kind], Check(f_vec, raise_warning=True), nullable=True, name="s").validate(ser))
+        fn = f_vec
+        if opts.get("scalar"):  # a check whose output is one boolean for the whole column (no per-element failure cases)
+            fn = lambda s: f_vec(s).all()  # noqa: E731
+        lz = bool(opts.get("lazy"))
+        plain = H.outcome(lambda: pa.SeriesSchema(PYK[kind], Check(fn), nullable=True, name="s").validate(ser, lazy=lz))
+        warn = H.outcome(lambda: pa.SeriesSchema(PYK[kind], Check(fn, raise_warning=True), nullable=True, name="s").validate(ser, lazy=lz))
         asserts.append(("opt/raise_warning_never_raises", v.holds(warn["kind"] == "accept")))
         asserts.append(("opt/raise_warning_warns_iff_fails", v.holds((warn.get("warnings", 0) > 0) == (plain["kind"] != "accept"))))
         facts.update(plain=plain["kind"], warn=warn["kind"], warnings=warn.get("warnings"))
@@ -1461,6 +1465,46 @@ def model_case(v, shape, N):
         models = [M]
         pspec = pa.DataFrameSchema({"a": pa.Column(float, Check(lambda s: s >= lo), nullable=nullable), "b": pa.Column(int)}, checks=Check(lambda d: d["b"] <= hi))
         extra_checks.append((Base, pspec))
+    elif shape == "inherited_cls_check":
+        # a check method that is inherited (not redefined) and whose result depends on the class it runs for; the solver picks which
+        # class of the hierarchy is compiled first
+        class Base(pa.DataFrameModel):
+            a: float = pa.Field(nullable=nullable)
+            b: int
+            _limit = lo
+
+            @pa.check("a")
+            def within(cls, s):  # noqa: N805
+                return s >= cls._limit
+
+            @pa.dataframe_check
+            def wide(cls, d):  # noqa: N805
+                return d["b"] <= cls._limit
+
+        class M(Base):
+            _limit = hi
+
+        if v.choice("order", ["parent_first", "child_first"]) == "parent_first":
+            Base.to_schema(), M.to_schema()
+        else:
+            M.to_schema(), Base.to_schema()
+        spec = lambda: pa.DataFrameSchema({"a": pa.Column(float, Check(lambda s: s >= hi), nullable=nullable), "b": pa.Column(int)},  # noqa: E731
+                                          checks=Check(lambda d: d["b"] <= hi))
+        arr = [("a", "float"), ("b", "int")]
+        models = [M]
+        pspec = pa.DataFrameSchema({"a": pa.Column(float, Check(lambda s: s >= lo), nullable=nullable), "b": pa.Column(int)}, checks=Check(lambda d: d["b"] <= lo))
+        extra_checks.append((Base, pspec))
+    elif shape == "falsy_alias":
+        # aliases that are falsy but not None: the integer label 0 and the empty string
+        class M(pa.DataFrameModel):
+            a: float = pa.Field(ge=lo, nullable=nullable, alias=0)
+            b: int = pa.Field(isin=[1, 2, 3], alias="")
+
+            class Config:
+                strict = True
+        spec = lambda: pa.DataFrameSchema({0: pa.Column(float, Check.ge(lo), nullable=nullable), "": pa.Column(int, Check.isin([1, 2, 3]))}, strict=True)  # noqa: E731
+        arr = [(0, "float"), ("", "int")]
+        models = [M]
     elif shape == "config_extras":
         class M(pa.DataFrameModel):
             a: float = pa.Field(nullable=nullable)
@@ -1481,7 +1525,7 @@ def model_case(v, shape, N):
     s1b = M.to_schema()
     asserts.append(("model/to_schema_stable", v.holds(fingerprint(s1) == fingerprint(s1b) and bool(s1 == s1b))))
     S = spec()
-    if shape not in ("check_methods",):
+    if shape not in ("check_methods", "inherited_cls_check"):
         asserts.append(("model/schema_equals_spec", v.holds(_fp_cols(s1) == _fp_cols(S))))
         facts["fp_model"], facts["fp_spec"] = None, None
     om = H.outcome(lambda: M.validate(df))
